@@ -290,3 +290,49 @@ func zzH_C06_localRunLostDep() {
 		zz.Assert(task.state == TaskLost, "a task whose dependency output is gone is LOST, not failed")
 	}
 }
+
+func zzPanicAdd64(a, b int64) int64 { panic(zzUserMsg) }
+
+// zzH_C06_localRunCombinerPanic: a task on the in-process executor whose
+// dependency carries a reduce combiner supplied by the user, which panics when
+// two rows with the same key meet. The panic must not escape Run (it would take
+// the driver process down): the task ends in error carrying the panic value,
+// and the limiter is released.
+func zzH_C06_localRunCombinerPanic() {
+	zzRegisterKey()
+	zzConstHash = true
+	defer func() { zzConstHash = false }()
+	old := *defaultChunksize
+	*defaultChunksize = 2
+	defer func() { *defaultChunksize = old }()
+	l := newLocalExecutor()
+	l.sess = &Session{p: 1}
+	zzInUse, zzMaxInUse, zzAcquires, zzReleases = 0, 0, nil, nil
+	fn, _ := slicefunc.Of(zzPanicAdd64)
+	dep := &Task{Name: TaskName{Op: "dep", NumShard: 1}, Type: zzCombTyp, NumPartition: 1, Combiner: fn, state: TaskOk}
+	n := zz.AnyIntIn("rows", 0, 3)
+	ks, vs := make([]zzKey, n), make([]int64, n)
+	for i := range ks {
+		ks[i], vs[i] = zzKey(zz.AnyInt64("key")), zz.AnyInt64("val")
+	}
+	dup := false
+	for i := range ks {
+		for j := 0; j < i; j++ {
+			dup = zz.Or(dup, ks[i] == ks[j])
+		}
+	}
+	l.buffers[dep] = taskBuffer{{frame.Slices(ks, vs)}}
+	task := &Task{Name: TaskName{Op: "t", NumShard: 1}, Type: zzCombTyp, NumPartition: 1, Pragma: zzExclPragma{false}, Deps: []TaskDep{{Head: dep}}}
+	task.state = TaskWaiting
+	task.Do = func(in []sliceio.Reader) sliceio.Reader { return in[0] }
+	l.Run(task)
+	zz.Assert(len(zzReleases) == 1 && zzInUse == 0, "the limiter is released exactly once, also when the combiner panics")
+	if dup {
+		zz.Reach("combiner called and panicked")
+		zz.Assert(task.state == TaskErr, "a panic in the user's combiner fails the task")
+		zz.Assert(task.err != nil && strings.Contains(task.err.Error(), zzUserMsg), "the error carries the panic value")
+	} else {
+		zz.Reach("no two rows share a key")
+		zz.Assert(task.state == TaskOk, "without equal keys the combiner is never called and the task succeeds")
+	}
+}
